@@ -60,7 +60,7 @@ CHECKS = {
    "SQLite file engine only; statement failure = a statement the engine really rejects."),
  "C14": ("fault_enumeration",
    "exhaustive enumeration of dev-database commands x dev states x failing-statement positions on the real CLI with a SQLite file as dev database; dev dump and directory bytes compared before/after",
-   "Commands migrate diff / validate / lint --latest N and schema apply|diff|inspect with SQL (and HCL) sources x dev state {empty, table with rows, view only, FTS/R-tree virtual tables only, table named sqlitefoo, thorough: table+trigger} x directory / schema-file shapes (creating tables, indexes, views and triggers) with, at every position (and nowhere), a statement the engine rejects or one it accepts but atlas cannot inspect (replay succeeds, reading the state back fails): a non-empty dev database must be refused and left byte-identical; an empty one must be handed back with no tables, indexes, views or triggers whether the command succeeded or failed; the migration directory must not be written by a replay (migrate diff may add one file and refresh the sum on success). Driver-level slice: the real MySQL and PostgreSQL drivers on a mocked connection with an in-memory catalogue as Inspector/PlanApplier, 162 (catalogue, binding, replay effect) cases: Snapshot must refuse a scope that holds a table and the restore function must hand the catalogue back as it was.",
+   "Commands migrate diff / validate / lint --latest N and schema apply|diff|inspect with SQL (and HCL) sources x dev state {empty, table with rows, view only, FTS/R-tree virtual tables only, table named sqlitefoo, thorough: table+trigger} x directory / schema-file shapes (creating tables, indexes, views and triggers) with, at every position (and nowhere), a statement the engine rejects or one it accepts but atlas cannot inspect (replay succeeds, reading the state back fails): a non-empty dev database must be refused and left byte-identical; an empty one must be handed back with no tables, indexes, views or triggers whether the command succeeded or failed; the migration directory must not be written by a replay (migrate diff may add one file and refresh the sum on success). Driver-level slice: the real MySQL and PostgreSQL drivers on a mocked connection with an in-memory catalogue as Inspector/PlanApplier, about 500 (catalogue, binding, replay effect) cases: Snapshot must refuse a scope that holds a table and the restore function (its changes planned by the real planner, the statements run against the catalogue as a server would, incl. foreign-key cycles and dependent objects that need CASCADE) must hand the catalogue back as it was.",
    "SQLite file as dev database for the CLI slice (MySQL/PostgreSQL only at driver level, catalogue mocked); commands that do not use the dev database for a given source (HCL on SQLite) are only required to leave it untouched."),
  "C15": ("exploration",
    "bounded-exhaustive enumeration over the exported type registries x parameter grid and over the differ universe states, each pushed through MarshalHCL/EvalHCL of the real codecs and compared by differ, formatted types, own structural comparison and byte fixpoint",
